@@ -25,6 +25,9 @@ MvReasons(r) ==
             \cup (IF known THEN {}
                   ELSE IF x.pat.ty = "metavar" /\ x.pat.mv # want THEN {<<"pattern-hole", x.lang>>}
                   ELSE IF x.pat.ty = "terminal" /\ want.ty # "none" THEN {<<"pattern-literal", x.lang>>}
+                  \* ... nor a pattern with structure of its own (a grammar may read `$$A` as several tokens: the pattern is the hole
+                  \* all the same)
+                  ELSE IF x.pat.ty = "internal" /\ want.ty # "none" THEN {<<"pattern-structure-instead-of-hole", x.lang>>}
                   ELSE {})
           : k \in 1..Len(r.langs) }
     \cup (IF r.tpl.panic THEN {<<"template-panic", "">>} ELSE {})
